@@ -230,6 +230,12 @@ type ExploreOpts struct {
 	Alloc    int
 	// per-query solver time-out of this exploration (0: the program's default)
 	TimeoutMS int
+	// once a violation whose label is not in ExpectedLabels has been found, the
+	// exploration of this entry ends after StopGraceRuns further runs (0: never):
+	// the verdict is already "violated", and a change that breaks the property can
+	// also multiply the paths (e.g. by adding goroutines)
+	StopGraceRuns  int
+	ExpectedLabels map[string]bool
 }
 
 type FuncStat struct {
@@ -257,6 +263,7 @@ type Report struct {
 	Inconclusive  int
 	InconclVerd   int
 	Incomplete    bool // path budget or deadline hit
+	StoppedEarly  bool // ended StopGraceRuns after the first violation
 	Wall          time.Duration
 	Funcs         []FuncStat
 	Stubs         map[string]int
@@ -292,6 +299,7 @@ func (p *Program) Explore(o ExploreOpts) (*Report, error) {
 	queue := []workItem{nil}
 	busy := 0
 	stop := false
+	firstViol := -1
 	funcs := map[string]*FuncStat{}
 
 	machines := make([]*Machine, nw)
@@ -362,6 +370,9 @@ func (p *Program) Explore(o ExploreOpts) (*Report, error) {
 					rep.EngineErrors[msg]++
 				}
 				for _, v := range res.Violations {
+					if firstViol < 0 && !o.ExpectedLabels[v.Label] {
+						firstViol = rep.TotalRuns
+					}
 					rep.ViolCount[v.Label]++
 					if len(rep.Violations[v.Label]) < 3 {
 						rep.Violations[v.Label] = append(rep.Violations[v.Label], v)
@@ -380,6 +391,10 @@ func (p *Program) Explore(o ExploreOpts) (*Report, error) {
 				}
 				if o.MaxPaths > 0 && rep.TotalRuns >= o.MaxPaths && (len(queue) > 0 || busy > 0) {
 					rep.Incomplete = true
+					stop = true
+				}
+				if o.StopGraceRuns > 0 && firstViol >= 0 && rep.TotalRuns >= firstViol+o.StopGraceRuns && (len(queue) > 0 || busy > 0) {
+					rep.StoppedEarly = true
 					stop = true
 				}
 				if !o.Deadline.IsZero() && time.Now().After(o.Deadline) && (len(queue) > 0 || busy > 0) {
